@@ -4,8 +4,12 @@ package main
 // subset implies unsat of the whole); a non-unsat answer on the slice falls back to the full query.
 
 import (
+	"encoding/json"
+	"os"
+	"path/filepath"
 	"regexp"
 	"strings"
+	"sync"
 )
 
 var symRe = regexp.MustCompile(`[A-Za-z_$][A-Za-z0-9_$.!@]*`)
@@ -110,30 +114,64 @@ const fullQuery = -2
 // discharge runs the ladder of query variants (smaller slices first; with and without ground
 // pre-instantiation). Every variant only drops or instantiates hypotheses, so unsat of any
 // variant proves the obligation.
+// variantQuery builds the query of one rung of the ladder. Modes: 0 plain; 1 with ground
+// pre-instantiation; 2 plain without the lemma families; 3 plain with single-phase, loosely
+// matched lemma instances. Every variant only drops hypotheses or adds consequences of them, so
+// unsat of any one proves the obligation.
+func variantQuery(o *Obligation, k, mode int) string {
+	switch mode {
+	case 1:
+		return o.exec.slicedQuery(o, k, true)
+	case 2:
+		return o.exec.slicedQuery(o, k, false, 0)
+	case 3:
+		return o.exec.slicedQuery(o, k, false, -1)
+	}
+	return o.exec.slicedQuery(o, k, false)
+}
+
+func variantLabel(k, mode int) string {
+	s := " [full"
+	if k != fullQuery {
+		s = " [slice " + itoa(k)
+	}
+	switch mode {
+	case 1:
+		s += "+inst"
+	case 2:
+		s += " nofam"
+	case 3:
+		s += " legacy"
+	}
+	return s + "]"
+}
+
 func discharge(o *Obligation, timeout int, cross bool) SolverResult {
 	var spent float64
 	seen := map[string]bool{}
 	var last SolverResult
+	// the proof plan records which rung proved this obligation last time: try it first. The plan
+	// only orders the attempts; the answer always comes from a solver run on the current query.
+	if pl, ok := planFor(o.Name); ok && !cross {
+		q := variantQuery(o, pl.K, pl.Mode)
+		seen[q] = true
+		r := solve(q, timeout, false, false)
+		if r.Status == "unsat" {
+			r.Solver += variantLabel(pl.K, pl.Mode) + " (planned)"
+			r.K, r.Mode, r.Ladder = pl.K, pl.Mode, true
+			return r
+		}
+		spent += r.Seconds
+	}
 	for _, k := range []int{1, 2, 4, -1, fullQuery} {
 		// both variants of one slice level race each other
 		type variant struct {
 			q    string
-			inst bool
+			mode int
 		}
 		var vs []variant
 		for mode := 0; mode < 4; mode++ {
-			// 0: plain; 1: with ground pre-instantiation; 2: plain without the lemma families;
-			// 3: plain with single-phase, loosely matched lemma instances. All variants only add
-			// consequences of the hypotheses or drop hypotheses, so unsat of any one is a proof.
-			inst := mode == 1
-			var q string
-			if mode == 2 {
-				q = o.exec.slicedQuery(o, k, false, 0)
-			} else if mode == 3 {
-				q = o.exec.slicedQuery(o, k, false, -1)
-			} else {
-				q = o.exec.slicedQuery(o, k, inst)
-			}
+			q := variantQuery(o, k, mode)
 			if seen[q] {
 				continue
 			}
@@ -142,14 +180,14 @@ func discharge(o *Obligation, timeout int, cross bool) SolverResult {
 				last = SolverResult{Status: "unknown", Solver: "none", Output: "query too large"}
 				continue
 			}
-			vs = append(vs, variant{q, inst})
+			vs = append(vs, variant{q, mode})
 		}
 		if len(vs) == 0 {
 			continue
 		}
 		ch := make(chan struct {
 			r    SolverResult
-			inst bool
+			mode int
 		}, len(vs))
 		for _, v := range vs {
 			v := v
@@ -157,8 +195,8 @@ func discharge(o *Obligation, timeout int, cross bool) SolverResult {
 				r := solve(v.q, timeout, cross, false)
 				ch <- struct {
 					r    SolverResult
-					inst bool
-				}{r, v.inst}
+					mode int
+				}{r, v.mode}
 			}()
 		}
 		var levelMax float64
@@ -171,15 +209,8 @@ func discharge(o *Obligation, timeout int, cross bool) SolverResult {
 			}
 			if x.r.Status == "unsat" && got == nil {
 				r := x.r
-				if k == fullQuery {
-					r.Solver += " [full"
-				} else {
-					r.Solver += " [slice " + itoa(k)
-				}
-				if x.inst {
-					r.Solver += "+inst"
-				}
-				r.Solver += "]"
+				r.Solver += variantLabel(k, x.mode)
+				r.K, r.Mode, r.Ladder = k, x.mode, true
 				r.Seconds = spent + x.r.Seconds
 				got = &r
 				if !cross {
@@ -187,7 +218,7 @@ func discharge(o *Obligation, timeout int, cross bool) SolverResult {
 				}
 			}
 			last = x.r
-			if x.r.Status == "sat" && !x.inst {
+			if x.r.Status == "sat" && x.mode == 0 {
 				satPlain = true
 			}
 		}
@@ -211,4 +242,53 @@ func itoa(k int) string {
 		return "inf"
 	}
 	return string(rune('0' + k))
+}
+
+// ---------------------------------------------------------------------------------------
+// proof plan: which rung of the ladder proved an obligation (contracts/proof_plan.json, written by
+// `gvc check -record`). Purely an ordering hint.
+
+type planEntry struct {
+	K    int `json:"k"`
+	Mode int `json:"mode"`
+}
+
+var (
+	planMu     sync.Mutex
+	planLoaded map[string]planEntry
+	planPath   string
+)
+
+func loadPlan(verifDir string) {
+	planPath = filepath.Join(verifDir, "contracts", "proof_plan.json")
+	planLoaded = map[string]planEntry{}
+	if b, err := os.ReadFile(planPath); err == nil {
+		json.Unmarshal(b, &planLoaded)
+	}
+}
+
+func planFor(name string) (planEntry, bool) {
+	planMu.Lock()
+	defer planMu.Unlock()
+	e, ok := planLoaded[name]
+	return e, ok
+}
+
+// recordPlan merges the rungs that proved the given obligations into the plan file.
+func recordPlan(obls []*Obligation) error {
+	planMu.Lock()
+	defer planMu.Unlock()
+	if planLoaded == nil {
+		planLoaded = map[string]planEntry{}
+	}
+	for _, o := range obls {
+		if o.Result.Status == "unsat" && o.Result.Ladder {
+			planLoaded[o.Name] = planEntry{K: o.Result.K, Mode: o.Result.Mode}
+		}
+	}
+	b, err := json.MarshalIndent(planLoaded, "", " ")
+	if err != nil {
+		return err
+	}
+	return os.WriteFile(planPath, b, 0o644)
 }
